@@ -10,6 +10,7 @@ import (
 	"sort"
 	"strings"
 	"sync"
+	"sync/atomic"
 	"time"
 
 	"github.com/ovn-org/libovsdb/client"
@@ -175,7 +176,7 @@ func runC01(r *ev.Run) {
 		sort.Slice(states, func(i, j int) bool { return fmt.Sprint(states[i].hist) < fmt.Sprint(states[j].hist) })
 		r.Set("states", len(states))
 		cfgs := c01Cfgs()
-		methods := []string{ovsdb.MonitorRPC, ovsdb.ConditionalMonitorRPC, ovsdb.ConditionalMonitorSinceRPC}
+		methods := []string{ovsdb.MonitorRPC, ovsdb.ConditionalMonitorRPC, ovsdb.ConditionalMonitorSinceRPC, ovsdb.ConditionalMonitorSinceRPC + "+update3"}
 		for _, s := range states {
 			for ti := range alpha {
 				for mi, m := range methods {
@@ -250,7 +251,31 @@ func runC01(r *ev.Run) {
 					panic(fmt.Sprintf("replay failed %v %v", res, err))
 				}
 			}
-			c := e2e.NewClient(dbs, env.Sock)
+			sock := env.Sock
+			method := s.Method
+			if strings.HasSuffix(method, "+update3") {
+				// the in-tree server never sends update3: a proxy turns its update2 notifications into update3 with a transaction id
+				method = strings.TrimSuffix(method, "+update3")
+				px := env.WithProxy()
+				var seq int64
+				px.Rewrite = func(m e2e.Msg) json.RawMessage {
+					if m.Dir != "s2c" || m.Method != "update2" {
+						return nil
+					}
+					var n struct {
+						Params []json.RawMessage `json:"params"`
+					}
+					if json.Unmarshal(m.Raw, &n) != nil || len(n.Params) != 2 {
+						return nil
+					}
+					id := fmt.Sprintf("dddddddd-0000-0000-0000-%012d", atomic.AddInt64(&seq, 1))
+					b, _ := json.Marshal(map[string]interface{}{"id": json.RawMessage(m.ID), "method": "update3", "params": []interface{}{n.Params[0], id, n.Params[1]}})
+					r.Add("update3_notifications", 1)
+					return b
+				}
+				sock = px.Sock
+			}
+			c := e2e.NewClient(dbs, sock)
 			ctx, cancel := e2e.Ctx()
 			defer cancel()
 			if err := c.Connect(ctx); err != nil {
@@ -268,7 +293,7 @@ func runC01(r *ev.Run) {
 			var pendingTxn chan error // server-side transaction running while a Monitor call is parked
 			for mi, mon := range s.cfg().mons {
 				m := c.NewMonitor()
-				m.Method = s.Method
+				m.Method = method
 				var tnames []string
 				for t := range mon.tables {
 					tnames = append(tnames, t)
@@ -424,6 +449,6 @@ func runC01(r *ev.Run) {
 	r.Set("distinct_nontrivial", r.DistinctCount("nontrivial"))
 	r.Set("evaluations", r.Get("transitions"))
 	r.Set("max_depth", depth+1)
-	r.Set("bound", fmt.Sprintf("states of depth <= %d over a %d-transaction alphabet; 3 methods x 3 monitor configurations x {normal, reply applied after the next notification (first and additional monitor), own transaction}", depth, len(alpha)))
+	r.Set("bound", fmt.Sprintf("states of depth <= %d over a %d-transaction alphabet; 4 methods (incl. update3 through a rewriting proxy) x 3 monitor configurations x {normal, notification handler parked while the reply is applied, reply applied after the next notification (first and additional monitor), own transaction}", depth, len(alpha)))
 	_ = schemas.Get
 }
